@@ -73,6 +73,7 @@ class Lost(Exception):
 
 def ins(cid, props, text):
     """wrap an insertion. Per-line property tags `[C01,C02] ` at line start become trailing markers."""
+    cid = re.sub(r'\s+', '_', cid).replace('*/', '*_/')   # clause ids must be one token (line_map / erase rely on it)
     out = []
     for line in text.split('\n'):
         m = re.match(r'^(\s*)\[((?:C\d+)(?:,C\d+)*)\]\s*(.*)$', line)
@@ -182,7 +183,7 @@ def parse_overlay(path):
 # ----------------------------------------------------------------------------- function / loop finder
 
 FN_RE = re.compile(r'(?m)^([ \t]*)((?:pub(?:\s*\([a-z]+\))?\s+)?)fn\s+([A-Za-z0-9_]+)')
-IMPL_RE = re.compile(r'(?m)^([ \t]*)impl(?:<[^>{]*>)?\s+(?:([A-Za-z0-9_:<>\', ]+?)\s+for\s+)?([A-Za-z0-9_:]+)(?:<[^{]*>)?\s*(?:where[^{]*)?\{')
+IMPL_RE = re.compile(r'(?m)^([ \t]*)impl(?:<[^>{]*>)?\s+(?:([A-Za-z0-9_:<>\'&, ]+?)\s+for\s+)?([A-Za-z0-9_:]+)(?:<[^{]*>)?\s*(?:where[^{]*)?\{')
 
 
 def index_functions(s, mask=None):
@@ -358,7 +359,9 @@ class Weaver:
             if not code(m.start(2)): continue
             self.rec('T4', rel, s, m.start(), m.group(0))
             a = m.start() + len(m.group(1))
-            edits.append((a, m.end(), rep(f"for {m.group(2)}_ref in {m.group(3)} {{ let {m.group(2)} = *{m.group(2)}_ref;", s[a:m.end()])))
+            # two edits so that loop clauses (@loop) can still be inserted in front of the '{'
+            edits.append((a, m.end() - 1, rep(f"for {m.group(2)}_ref in {m.group(3)} ", s[a:m.end() - 1])))
+            edits.append((m.end(), m.end(), rep(f" let {m.group(2)} = *{m.group(2)}_ref;", '')))
         # T5 rand::random
         for m in re.finditer(r'(?<![A-Za-z_:])rand::random', s):
             if not code(m.start()): continue
@@ -437,6 +440,7 @@ class Weaver:
                 self.lost.append(f"{rel}: @{a['kind']} \"{a['needle']}\" ({len(idxs)} matches)"); continue
             i = idxs[0] + len(a['needle']); pd = 0
             want = '{' if a['kind'] == 'block' else ';'
+            if a['needle'].endswith(want): i -= 1   # needle may include the terminator to make it unique
             while i < len(s):
                 if mask[i]:
                     c = s[i]
